@@ -29,6 +29,9 @@ def conditions(tier, seed):
     out.append(Cond('uuidgen', 'c19_new.py', {}, func='check_uuidgen', timeout=t,
                     bound='three uuid4 results (symbolic 128-bit, version/variant bits set), peek/next interleavings',
                     symbolic=['v1', 'v2', 'v3'], case_split=['ops']))
+    out.append(Cond('generator_replaced', 'c19_new.py', {}, func='check_swap', timeout=t,
+                    bound='0..2 creations, then metamodel.id_generator replaced by another user generator, then creations in a class defined before and one defined after',
+                    symbolic=['generator outputs a1 a2 b1 b2 b3'], case_split=['k']))
     out.append(Cond('types', 'c19_new.py', {}, func='check_type', timeout=t,
                     bound='16 type names x value omitted / positional / keyword', case_split=['ti', 'how']))
     return out
